@@ -1,6 +1,6 @@
 (* C12 — build and inline are pure, repeatable and independent of process history.  Property theorems only. *)
 From Coq Require Import List String Bool.
-From Spox Require Import Base IR Show Build Sem Plan Validate BuildFacts Store StoreFacts DfsFacts ScopeFacts EmitFacts.
+From Spox Require Import Base IR Show Build Sem Plan Validate BuildFacts Store StoreFacts StoreFacts2 DfsFacts ScopeFacts EmitFacts.
 Import ListNotations.
 
 (* build leaves the name of every Var the caller holds as it found it — on success and on every failure, and also when one
@@ -37,3 +37,32 @@ Theorem C12_nothing_unrequested_is_emitted_by_construction :
       In u (topo_of (with_main p (Some args) outputs) 0) /\ is_arg (with_main p (Some args) outputs) u = false.
 Proof. exact build_public_emits_only_reachable. Qed.
 Print Assumptions C12_nothing_unrequested_is_emitted_by_construction.
+
+(* What the builder sees DURING a build: each listed Var carries a name the request lists for it (the last one), every other
+   Var of the process its own name - nothing else is renamed. *)
+Theorem C12_during_build_listed_vars_carry_requested_name :
+  forall s inputs x, In x (map snd inputs) -> exists n, during s inputs x = Some n /\ In (n, x) inputs.
+Proof. exact during_build_listed. Qed.
+Print Assumptions C12_during_build_listed_vars_carry_requested_name.
+
+Theorem C12_during_build_other_vars_untouched :
+  forall s inputs x, ~ In x (map snd inputs) -> during s inputs x = s x.
+Proof. exact during_build_unlisted. Qed.
+Print Assumptions C12_during_build_other_vars_untouched.
+
+(* Independence of process history, for the store: after ANY sequence of earlier builds - each may have succeeded or failed, with
+   any inputs, also one Var under several names - every Var has the name it had at the start ... *)
+Theorem C12_any_history_of_builds_restores_names :
+  forall reqs : list ((store -> store) * list (string * var)),
+  Forall (fun r => forall s1 x, fst r s1 x = s1 x) reqs ->
+  forall s x, fold_left build_step reqs s x = s x.
+Proof. exact history_restores_names. Qed.
+Print Assumptions C12_any_history_of_builds_restores_names.
+
+(* ... and so the names a later build works with are those it would work with in a fresh process. *)
+Theorem C12_build_view_independent_of_history :
+  forall (reqs : list ((store -> store) * list (string * var))) s inputs,
+  Forall (fun r => forall s1 x, fst r s1 x = s1 x) reqs ->
+  forall x, during (fold_left build_step reqs s) inputs x = during s inputs x.
+Proof. exact view_independent_of_history. Qed.
+Print Assumptions C12_build_view_independent_of_history.
